@@ -340,6 +340,53 @@ def check_setters(X, cls, obj, view, buf, want, ctx, rnd, P):
     return want
 
 
+def check_setters_across_growth(X, cls, obj, buf, want, ctx, rnd, P):
+    """C10: "... after any sequence of such assignments interleaved with allocations that grow the buffer": the SAME handles (the
+    root handle and nested views obtained before) are written through, the buffer is grown (storage replaced), and they are written
+    through again; everything is then re-read through a fresh view."""
+    tk = type_key(X, cls)
+    kept = []  # (path of the array, kept handle)
+    if X.array.is_array(cls) and X.scalar.is_scalar(cls._itemtype):
+        kept.append(((), obj))
+    elif X.struct.is_struct(cls):
+        for f in cls._fields:
+            if X.array.is_array(f.ftype) and X.scalar.is_scalar(f.ftype._itemtype):
+                kept.append(((("f", f.name),), getattr(obj, f.name)))
+    kept = [(p, h) for p, h in kept if int(np.prod(h._shape)) > 0][:3]
+    if not kept:
+        return want
+
+    def write(h, path, round_):
+        nonlocal want
+        idx = tuple(int(rnd.randrange(s)) for s in h._shape)
+        key = idx if len(idx) > 1 else idx[0]
+        FT = type(h)._itemtype
+        nv = grammar.scalar_value(FT, rnd)
+        h[key] = nv
+        want = replaced(want, path + (("i", key),), FT._dtype.type(nv))
+        P.evals += 1
+
+    try:
+        for path, h in kept:
+            write(h, path, 0)
+        cap0 = buf.capacity
+        buf.allocate(buf.capacity + 32)  # forces growth: the storage object is replaced, offsets stay
+        if buf.capacity <= cap0:
+            return want
+        for path, h in kept:
+            write(h, path, 1)
+        fresh = cls._from_buffer(obj._buffer, obj._offset)
+        got = plain(X, fresh)
+        if not eq(got, want):
+            P.add("C10", f"set-after-growth:{tk}", got=repr(got)[:200], expected=repr(want)[:200], **ctx)
+    except Exception as e:  # noqa
+        if "xobjects" in "".join(__import__("traceback").format_exc()):
+            P.add("C10", f"set-after-growth:{tk}:raised:{type(e).__name__}", problem=str(e)[:200], **ctx)
+        else:
+            raise
+    return want
+
+
 def check_whole_assign(X, cls, obj, view, buf, want, ctx, rnd, P):
     """C10/C06: assign a whole nested array of equal size (possibly another shape) through one alias after the other alias has
     already looked at the field; both must then show the new value"""
@@ -725,6 +772,7 @@ def run_all(tier, seed):
                     try:
                         want2 = check_setters(X, cls, obj, view, buf, want, ctx, rnd, P)
                         want2 = check_whole_assign(X, cls, obj, view, buf, want2, ctx, rnd, P)
+                        want2 = check_setters_across_growth(X, cls, obj, buf, want2, ctx, rnd, P)
                         check_misuse(X, cls, obj, buf, want2, ctx, rnd, P)
                     except Exception as e:  # noqa
                         P.add("C10", f"harness:{type_key(X, cls)}:{type(e).__name__}", problem=str(e)[:200], **ctx)
